@@ -19,7 +19,8 @@ BOUNDARY = [0, 1, 499, 500, 900, 901, 999, 1000, 1999, 2000, 2499, 2500]
 # int() but are outside the model, see Model/Prelude.v; Lark's CONDITION_KEY never produces them)
 MALFORMED_KEYS = ["", "abc", "1a", "a1", "-1", "1.5", "0x1", "P", "1P", "12P", "0P", "2500P", "12p", "P12", "1P2", "UB1", "[1]", "1 2", "12PP", "xP"]
 LARGE_KEYS = ["3001", "9999", "10000", "12345", "99999", "2147483648", "12345678901234567890", "00", "000", "01", "007", "0499", "0500", "00999", "02000"]
-PACKAGES = {"1P": "[3] U [905]", "12P": "[2000] O [501]", "7P": "[499][901]", "123P": "([4] X [5]) U [950]"}
+PACKAGES = {"1P": "[3] U [905]", "12P": "[2000] O [501]", "7P": "[499][901]", "123P": "([4] X [5]) U [950]",
+            "20P": "[UB1] U [5]", "21P": "[UB3]", "22P": "[6] O ([UB2] U [12P])"}
 # what the time conditions are replaced with (docstring of TimeConditionTransformer)
 TIME_KEYS = {"UB1": ["932"], "UB2": ["934"], "UB3": ["932", "492", "934", "493"]}
 
@@ -354,14 +355,18 @@ def run(ctx):
             keys = [v for t, v in toks if t == "CONDITION_KEY"]
             pk = [v for t, v in toks if t == "PACKAGE_KEY"]
             tk = [v for t, v in toks if t == "TIME_CONDITION_KEY"]
+            pk_left, tk_all = ([] if rp else list(pk)), list(tk)
             if rp:
-                for p in pk:
-                    keys += [v for t, v in tree_tokens(parse_condition_expression_to_tree(PACKAGES[p])) if t == "CONDITION_KEY"]
+                for p in pk:   # exactly one level: packages inside a package text stay, its time conditions join those of the expression
+                    inner = tree_tokens(parse_condition_expression_to_tree(PACKAGES[p]))
+                    keys += [v for t, v in inner if t == "CONDITION_KEY"]
+                    pk_left += [v for t, v in inner if t == "PACKAGE_KEY"]
+                    tk_all += [v for t, v in inner if t == "TIME_CONDITION_KEY"]
             if rt:
-                for t_ in tk:
+                for t_ in tk_all:
                     keys += TIME_KEYS[t_]
             want = mk_extract(*[sorted({k for k in keys if doc_category(int(k)) == c}, key=int) for c in ("hint", "fc", "rc")],
-                              [] if rp else sorted(set(pk)), [] if rt else sorted(set(tk)))
+                              sorted(set(pk_left)), [] if rt else sorted(set(tk_all)))
             n_res += 1
             if o[0] != "ok" or o[1] != want:
                 ctx.fail(f"resolve|{rp}|{rt}|{s}", inp, str(want), str(o[1]), "oracle: after resolution the inserted keys appear and the resolved abbreviations do not")
